@@ -30,6 +30,16 @@ def acc(s):
     return s.count("is") - s.count("es") if s else 0
 
 
+# Texts cross the JSON / TLA+ boundary in ASCII: a character outside printable ASCII is written {code point}.  The two
+# functions are inverse of each other on such texts (transliteration only).
+def ascii_in(t):
+    return re.sub(r"\{(\d+)\}", lambda m: chr(int(m.group(1))), t)
+
+
+def ascii_out(t):
+    return "".join(c if 32 <= ord(c) < 127 and c not in "{}" else "{%d}" % ord(c) for c in t)
+
+
 def lex(text):
     if not isinstance(text, str):
         raise Shape("text expected, got %s" % type(text).__name__)
@@ -42,7 +52,7 @@ def lex(text):
         pos = m.end()
         g = m.groupdict()
         if g["header"]:
-            un = lambda t: re.sub(r"\\(.)", r"\1", t)      # LilyPond string escapes
+            un = lambda t: ascii_out(re.sub(r"\\(.)", r"\1", t))      # LilyPond string escapes
             out.append({"k": "header", "title": un(g["title"]), "composer": un(g["composer"]), "opus": un(g["opus"])})
         elif g["time"]:
             out.append({"k": "time", "a": int(g["ta"]), "b": int(g["tb"])})
@@ -87,7 +97,7 @@ def parse_xml(text):
     if not isinstance(text, str):
         raise Shape("text expected")
     root = ET.fromstring(text)      # raises on XML that is not well formed
-    out = {"title": itxt(root, "movement-title", ""), "creator": itxt(root, "identification/creator", ""), "partlist": [], "parts": []}
+    out = {"title": ascii_out(itxt(root, "movement-title", "")), "creator": ascii_out(itxt(root, "identification/creator", "")), "partlist": [], "parts": []}
     for sp in root.findall("part-list/score-part"):
         out["partlist"].append({"id": sp.get("id", ""), "name": itxt(sp, "part-name", ""), "instr": itxt(sp, "score-instrument/instrument-name", "")})
     for part in root.findall("part"):
@@ -111,7 +121,7 @@ def run_case(c):
     p = c["prog"]
     p.setdefault("title", "Untitled"); p.setdefault("author", ""); p.setdefault("subtitle", "")
     try:
-        comp = mk_composition(p)
+        comp = mk_composition(dict(p, title=ascii_in(p["title"]), author=ascii_in(p["author"]), subtitle=ascii_in(p["subtitle"])))
         good = built_ok(p, comp)
     except Exception:
         good = False
